@@ -95,6 +95,137 @@ pub proof fn lemma_first_op(gs: Seq<crate::attribute::IppAttributeGroup>)
 }
 
 
+/// C19: `first_of` is the position a left-to-right search for the first group of the kind stops at
+pub proof fn lemma_first_of(gs: Seq<AGroup>, tag: crate::model::DelimiterTag, i: int)
+    requires
+        0 <= i <= gs.len(),
+        forall|j: int| 0 <= j < i ==> (#[trigger] gs[j]).0 != tag,
+        i < gs.len() ==> gs[i].0 == tag,
+    ensures first_of(gs, tag) == i,
+    decreases gs.len(),
+{
+    if gs.len() > 0 {
+        if gs[0].0 == tag {
+            assert(i == 0);
+        } else {
+            assert(i >= 1);
+            let r = gs.skip(1);
+            assert forall|j: int| 0 <= j < i - 1 implies (#[trigger] r[j]).0 != tag by { assert(r[j] == gs[j + 1]); }
+            if i - 1 < r.len() { assert(r[i - 1] == gs[i]); }
+            lemma_first_of(r, tag, i - 1);
+        }
+    }
+}
+
+/// a kind never used has no latest value
+pub proof fn lemma_latest_none(ops: Seq<AOp>, tag: crate::model::DelimiterTag, name: Seq<char>)
+    requires !first_use(ops).contains(tag),
+    ensures latest(ops, tag, name) is None,
+    decreases ops.len(),
+{
+    if ops.len() > 0 {
+        let p = first_use(ops.drop_last());
+        if p.contains(ops.last().0) {
+            assert(first_use(ops) == p);
+        } else {
+            assert(first_use(ops) == p.push(ops.last().0));
+            assert(p.push(ops.last().0)[p.len() as int] == ops.last().0);
+            if p.contains(tag) { let k = choose|k: int| 0 <= k < p.len() && p[k] == tag; assert(p.push(ops.last().0)[k] == tag); }
+        }
+        lemma_latest_none(ops.drop_last(), tag, name);
+    }
+}
+
+/// C19, the history statement: a container built only by additions holds one group per kind used, in order of first use,
+/// each holding exactly the names added under that kind, bound to the most recent value
+pub proof fn lemma_add_history(ops: Seq<AOp>)
+    ensures
+        kinds(add_all(Seq::empty(), ops)) =~= first_use(ops),
+        first_use(ops).no_duplicates(),
+        forall|i: int, n: Seq<char>| 0 <= i < add_all(Seq::empty(), ops).len() ==>
+            (#[trigger] add_all(Seq::empty(), ops)[i].1.contains_key(n)) == (latest(ops, add_all(Seq::empty(), ops)[i].0, n) is Some),
+        forall|i: int, n: Seq<char>| 0 <= i < add_all(Seq::empty(), ops).len() && add_all(Seq::empty(), ops)[i].1.contains_key(n) ==>
+            Some(#[trigger] add_all(Seq::empty(), ops)[i].1[n]) == latest(ops, add_all(Seq::empty(), ops)[i].0, n),
+    decreases ops.len(),
+{
+    let gs = add_all(Seq::empty(), ops);
+    if ops.len() > 0 {
+        let pre = ops.drop_last();
+        let o = ops.last();
+        let p = add_all(Seq::empty(), pre);
+        lemma_add_history(pre);
+        let fu = first_use(pre);
+        assert(kinds(p) =~= fu);
+        assert(gs == spec_add(p, o.0, o.1, o.2));
+        if fu.contains(o.0) {
+            let i = choose|i: int| 0 <= i < fu.len() && fu[i] == o.0;
+            assert(kinds(p)[i] == p[i].0);
+            assert forall|j: int| 0 <= j < i implies (#[trigger] p[j]).0 != o.0 by { assert(kinds(p)[j] == p[j].0); assert(fu[j] != fu[i]); }
+            lemma_first_of(p, o.0, i);
+            assert(gs =~= p.update(i, (o.0, p[i].1.insert(o.1, o.2))));
+            assert(kinds(gs) =~= fu);
+            assert forall|k: int, n: Seq<char>| 0 <= k < gs.len() implies
+                (#[trigger] gs[k].1.contains_key(n)) == (latest(ops, gs[k].0, n) is Some)
+                && (gs[k].1.contains_key(n) ==> Some(gs[k].1[n]) == latest(ops, gs[k].0, n)) by {
+                if k != i { assert(kinds(p)[k] == p[k].0); assert(fu[k] != fu[i]); assert(p[k].1.contains_key(n) == (latest(pre, p[k].0, n) is Some)); }
+                else { assert(p[i].1.contains_key(n) == (latest(pre, p[i].0, n) is Some)); }
+            }
+        } else {
+            assert forall|j: int| 0 <= j < p.len() implies (#[trigger] p[j]).0 != o.0 by { assert(kinds(p)[j] == p[j].0); }
+            lemma_first_of(p, o.0, p.len() as int);
+            let g = (o.0, Map::<Seq<char>, AVal>::empty().insert(o.1, o.2));
+            assert(gs =~= p.push(g));
+            assert(kinds(gs) =~= fu.push(o.0));
+            assert forall|a: int, b: int| 0 <= a < b < fu.push(o.0).len() implies fu.push(o.0)[a] != fu.push(o.0)[b] by {
+                if b < fu.len() { assert(fu[a] != fu[b]); }
+            }
+            assert forall|k: int, n: Seq<char>| 0 <= k < gs.len() implies
+                (#[trigger] gs[k].1.contains_key(n)) == (latest(ops, gs[k].0, n) is Some)
+                && (gs[k].1.contains_key(n) ==> Some(gs[k].1[n]) == latest(ops, gs[k].0, n)) by {
+                if k < p.len() { assert(kinds(p)[k] == p[k].0); assert(p[k].1.contains_key(n) == (latest(pre, p[k].0, n) is Some)); }
+                else { lemma_latest_none(pre, o.0, n); }
+            }
+        }
+    } else {
+        assert(gs =~= Seq::<AGroup>::empty());
+    }
+}
+
+/// C19: inserting under key `k` replaces exactly the attribute named `k@` in the abstract view (names compared by content)
+pub proof fn lemma_abs_attrs_insert(m: Map<String, crate::attribute::IppAttribute>, k: String, a: crate::attribute::IppAttribute)
+    ensures abs_attrs(m.insert(k, a)) =~= abs_attrs(m).insert(k@, aval(a.sval())),
+{
+    let m2 = m.insert(k, a);
+    let l = abs_attrs(m2);
+    let r = abs_attrs(m).insert(k@, aval(a.sval()));
+    assert forall|x: String, y: String| x@ == y@ implies x == y by { crate::verif_ext::axiom_string_ext(x, y); }
+    assert forall|n: Seq<char>| l.contains_key(n) <==> r.contains_key(n) by {
+        if l.contains_key(n) {
+            let x = choose|x: String| m2.dom().contains(x) && x@ == n;
+            if x != k { assert(m.dom().contains(x)); assert(m.dom().map(|k: String| k@).contains(n)); }
+        }
+        if r.contains_key(n) {
+            if n == k@ { assert(m2.dom().contains(k)); assert(m2.dom().map(|k: String| k@).contains(n)); }
+            else {
+                let x = choose|x: String| m.dom().contains(x) && x@ == n;
+                assert(m2.dom().contains(x)); assert(m2.dom().map(|k: String| k@).contains(n));
+            }
+        }
+    }
+    assert forall|n: Seq<char>| l.contains_key(n) implies l[n] == r[n] by {
+        let x2 = choose|x: String| m2.contains_key(x) && x@ == n;
+        let y = choose|x: String| m2.dom().contains(x) && x@ == n;
+        assert(m2.contains_key(y) && y@ == n);
+        if n == k@ {
+            assert(x2 == k);
+        } else {
+            assert(x2 != k && m.contains_key(x2));
+            let x1 = choose|x: String| m.contains_key(x) && x@ == n;
+            assert(x1 == x2);
+        }
+    }
+}
+
 /// `keys_enc` only looks at the first `n` keys
 pub proof fn lemma_keys_enc_prefix(m: Map<String, crate::attribute::IppAttribute>, a: Seq<String>, b: Seq<String>, n: nat)
     requires
